@@ -323,4 +323,31 @@ def syncPass (anyUnknown : Bool) (qUpdated : Nat) (entries : List Ent) (runKeys 
   entries.filterMap (fun e => syncEntry anyUnknown qUpdated (rv e.uuid) e)
   ++ (runKeys.filter (fun u => !entries.any (fun e => e.uuid == u))).map .goKill
 
+/-! ### fixStaleLocks (scheduler/fix_stale_locks.go)
+
+Runs once, before the first pass of a (re)started dispatcher. While some worker is in state
+Unknown it collects the Locked containers that are not in `Running()`; with none it returns at
+once; otherwise it waits for a pool notification or its timeout and looks again. When the loop
+ends (no worker Unknown any more, or timeout) it unlocks the containers collected in the *last*
+iteration. With no Unknown worker at the outset nothing is collected and nothing is unlocked. -/
+
+/-- Locked containers that `Running()` does not report. -/
+def staleLocks (entries : List Ent) (running : Uuid → Bool) : List Uuid :=
+  (entries.filter (fun e => e.state == .locked && !running e.uuid)).map (·.uuid)
+
+/-- What `fixStaleLocks` unlocks when the pool does not change while it waits: the stale locks
+seen in its one iteration if a worker is Unknown (it then gives up on its timeout — or returns at
+once when there are none), nothing if no worker is Unknown. -/
+def fixStaleLocks (anyUnknown : Bool) (entries : List Ent) (running : Uuid → Bool) : List Uuid :=
+  if anyUnknown then staleLocks entries running else []
+
+/-- The queue after `Unlock` of the given containers. -/
+def unlockAll (entries : List Ent) (us : List Uuid) : List Ent :=
+  entries.map (fun e => if us.contains e.uuid && e.state == .locked then { e with state := .queued } else e)
+
+/-- The queue after the `lockContainer` goroutines of a pass have run (latch free, `Lock`
+succeeds): every container for which `goLock` was issued and that is still Queued is Locked. -/
+def lockAll (entries : List Ent) (calls : List Call) : List Ent :=
+  entries.map (fun e => if calls.contains (.goLock e.uuid) && e.state == .queued then { e with state := .locked } else e)
+
 end ArvVerif.C14
